@@ -42,8 +42,8 @@ fn join_request_exact() {
     crate::vcheck!(f[17] == nonce as u8 && f[18] == (nonce >> 8) as u8, "C11: DevNonce little-endian");
     crate::vcheck!(otaa.dev_nonce.value() == nonce, "C11: the DevNonce sent is remembered for key derivation");
     unsafe {
-        crate::vcheck!(model::MIC_N == 1 && model::ENC_N == 0, "C11: one MIC computation");
-        let m = &model::MICS[0];
+        crate::vcheck!(model::MIC_N.v == 1 && model::ENC_N.v == 0, "C11: one MIC computation");
+        let m = &model::MICS.v[0];
         crate::vcheck!(m.key == model::pack(&appkey), "C11: JoinRequest MIC under the root key");
         crate::vcheck!(m.b0_len == 0 && m.len == 19, "C11: MIC over MHDR|JoinEUI|DevEUI|DevNonce");
         if probe < 19 {
@@ -57,7 +57,7 @@ fn join_accept_step(ri: usize, len: usize) {
     crate::mac::verif_kani_lorawan_device_mac_common::vinit();
     let probe: usize = kani::any();
     model::reset(probe);
-    unsafe { model::CONSISTENT = false; }
+    unsafe { model::CONSISTENT.v = false; }
     let r = rt::region_ut(ri);
     let fixed = rt::is_fixed(r);
     let mut region = rt::any_region(r);
@@ -83,26 +83,26 @@ fn join_accept_step(ri: usize, len: usize) {
     let mut d = [0u8; 32]; // decrypted bytes 1..len
     unsafe {
         if structure {
-            crate::vcheck!(model::ENC_N >= nb, "C11: JoinAccept is decrypted with the AES encrypt primitive, one call per block");
+            crate::vcheck!(model::ENC_N.v >= nb, "C11: JoinAccept is decrypted with the AES encrypt primitive, one call per block");
             let mut b = 0;
             while b < 2 {
                 if b < nb {
-                    let e = model::ENC[b];
+                    let e = model::ENC.v[b];
                     crate::vcheck!(e.key == model::pack(&appkey) && !e.decrypt, "C11: JoinAccept decrypted under the root key");
                     crate::vcheck!(e.input == model::pack(&frame[1 + 16 * b..17 + 16 * b]), "C11: decryption block input");
                     model::unpack(e.output, &mut d[16 * b..16 * b + 16]);
                 }
                 b += 1;
             }
-            crate::vcheck!(model::MIC_N == 1, "C11: one MIC computation");
-            let m = &model::MICS[0];
+            crate::vcheck!(model::MIC_N.v == 1, "C11: one MIC computation");
+            let m = &model::MICS.v[0];
             crate::vcheck!(m.key == model::pack(&appkey) && m.b0_len == 0 && m.len == len - 4, "C11: MIC under the root key over MHDR|decrypted payload");
             if probe < len - 4 {
                 crate::vcheck!(m.probe == if probe == 0 { frame[0] } else { d[probe - 1] }, "C11: MIC message bytes");
             }
             valid = m.out[0] == d[len - 5] && m.out[1] == d[len - 4] && m.out[2] == d[len - 3] && m.out[3] == d[len - 2];
         } else {
-            crate::vcheck!(model::ENC_N == 0 && model::MIC_N == 0, "C11: frames that are not JoinAccepts are not processed");
+            crate::vcheck!(model::ENC_N.v == 0 && model::MIC_N.v == 0, "C11: frames that are not JoinAccepts are not processed");
         }
     }
     match out {
@@ -116,14 +116,14 @@ fn join_accept_step(ri: usize, len: usize) {
             crate::vcheck!(structure && valid, "C11: only a JoinAccept whose MIC verifies under the root key may be accepted");
             kani::cover!(true, "JoinAccept accepted");
             unsafe {
-                crate::vcheck!(model::ENC_N == nb + 2, "C11: two key derivations");
+                crate::vcheck!(model::ENC_N.v == nb + 2, "C11: two key derivations");
                 let mut blk = [0u8; 16];
                 blk[0] = 0x01;
                 blk[1] = d[0]; blk[2] = d[1]; blk[3] = d[2];      // JoinNonce
                 blk[4] = d[3]; blk[5] = d[4]; blk[6] = d[5];      // NetID
                 blk[7] = devnonce as u8; blk[8] = (devnonce >> 8) as u8;
-                let e1 = model::ENC[nb];
-                let e2 = model::ENC[nb + 1];
+                let e1 = model::ENC.v[nb];
+                let e2 = model::ENC.v[nb + 1];
                 crate::vcheck!(e1.key == model::pack(&appkey) && e1.input == model::pack(&blk), "C11: NwkSKey = E(AppKey, 01|JoinNonce|NetID|DevNonce|pad) with the DevNonce just sent");
                 blk[0] = 0x02;
                 crate::vcheck!(e2.key == model::pack(&appkey) && e2.input == model::pack(&blk), "C11: AppSKey = E(AppKey, 02|JoinNonce|NetID|DevNonce|pad)");
